@@ -108,6 +108,7 @@ def main(tier):
         tie["broken"].append("B3: " + str(e)[:500])
         return common.finish("C15", tier, t0, proof, tie)
     hist = collections.Counter()
+    neg_known = []
     for i, a, b, noise in twins:
         ra, rb = real[2 * i], real[2 * i + 1]
         tie["evaluations"] += 2
@@ -128,6 +129,15 @@ def main(tier):
         ib = {attr.trait_name(it.get("trait")) if it.get("trait") else "new": it["tokens"] for it in rb["items"] if "tokens" in it}
         changed = [t for t in ia if ia[t] != ib.get(t)]
         hist["+".join(sorted(noise))] += 1
+        if changed == ["Default"]:
+            # known finding (see C14): a negative number is a literal at the end of its list and a negation before another
+            # item, so `#[educe(Default = -40)]` and `#[educe(Default = -40, Hash = false)]` differ in the Into conversion
+            strip = lambda x: attr.nospace(x).replace("::core::convert::Into::into", "").replace("(", "").replace(")", "")
+            known = [k for k in common.known_findings() if k.get("status") == "open" and k.get("property") == "C15"
+                     and k.get("matcher", {}).get("kind") == "negative-number-default-expression"]
+            if known and strip(ia["Default"]) == strip(ib.get("Default") or "") and re.search(r"Default\s*(=|\(\s*expr\w*\s*=)\s*-\s*[0-9]", a):
+                neg_known.append(i)
+                continue
         if changed:
             t = changed[0]
             tie["failing"].append({"what": "the impl of %s changed when other traits (%s) were educed on the same type" % (t, ", ".join(noise)),
@@ -163,6 +173,10 @@ def main(tier):
                 tie["broken"].append("B3: the model's impl of a trait changes with other traits although the implementation's does not")
                 tie["broken_details"].append({"rust_source": [a, b]})
         tie["distinct_nontrivial"] += 1
+    if neg_known:
+        tie["known"].append("`#[educe(Default = -N)]` and `#[educe(Default = -N, <another trait's attribute>)]` expand the Default impl differently: "
+                            "the negative number is a literal (converted with Into) at the end of its list and a negation (used as written) before "
+                            "another item (%d definitions)" % len(neg_known))
     tie["failing"] = tie["failing"][:3]
     tie["broken"] = tie["broken"][:3]
     tie["extra"]["added_traits_histogram"] = dict(hist)
